@@ -3,6 +3,8 @@ package c07
 import (
 	"encoding/json"
 	"os"
+	"path/filepath"
+	"sort"
 	"strings"
 	"testing"
 
@@ -141,5 +143,34 @@ func TestDebug(t *testing.T) {
 	out := runCase(c)
 	if out.fail != nil {
 		t.Logf("history failed: %v", out.fail)
+	}
+}
+
+// TestKnown replays every testdata/known/*.json and reports the signature each case produces
+// against the one recorded in the file (development aid, not part of the driver phases).
+func TestKnown(t *testing.T) {
+	files, _ := filepath.Glob("testdata/known/*.json")
+	sort.Strings(files)
+	for _, f := range files {
+		raw, err := os.ReadFile(f)
+		if err != nil {
+			t.Fatal(err)
+		}
+		var doc struct {
+			Signature string `json:"signature"`
+			Case      Case   `json:"case"`
+		}
+		if err := json.Unmarshal(raw, &doc); err != nil {
+			t.Fatalf("%s: %v", f, err)
+		}
+		got := "<no failure>"
+		if fail := run(doc.Case); fail != nil {
+			got = fail.Sig
+		}
+		status := "ok"
+		if got != doc.Signature {
+			status = "DIFFERENT"
+		}
+		t.Logf("%-9s %s: recorded %s, produced %s", status, filepath.Base(f), doc.Signature, got)
 	}
 }
